@@ -250,6 +250,7 @@ func runC07(tr *vh.Trace, n int, seed uint64, histFile string, khist int, maxlen
 		} else {
 			dirty = append(dirty, i)
 		}
+		tick.Add(1)
 		if probeH {
 			probe(tr, i, h)
 		}
@@ -267,7 +268,7 @@ func runC07(tr *vh.Trace, n int, seed uint64, histFile string, khist int, maxlen
 	sc := 0
 	for i := 1; i <= n; i++ {
 		in, want := pickInput(r, fx, ix, types, r.Intn(10) < 6, maxlen)
-		all := r.Intn(4) == 0
+		all := r.Intn(4) == 0 || replayIn != nil
 		curCase.Store(fmt.Sprintf("%s first=%s len=%d", in.name, in.first, len(in.data)))
 		tick.Add(1)
 		p := safePacket(in.data, in.first)
@@ -297,7 +298,7 @@ func runC07(tr *vh.Trace, n int, seed uint64, histFile string, khist int, maxlen
 			}
 			st["cases"]++
 			tr.Emit(vh.M{"op": "case", "sc": sc, "in": in.name, "first": in.first.String(), "j": j, "type": tn,
-				"idg": dg0, "plen": len(pl0), "dlen": len(in.data)})
+				"idg": dg0, "plen": len(pl0), "dlen": len(in.data), "hex": hexOf(in.data)})
 			for o := 0; o < 4; o++ {
 				var ref []byte
 				haveRef := false
